@@ -6,11 +6,13 @@ import (
 	"fmt"
 	"reflect"
 	"sort"
+	"time"
 
 	corev1 "k8s.io/api/core/v1"
 	apierrors "k8s.io/apimachinery/pkg/api/errors"
 	"k8s.io/apimachinery/pkg/api/meta"
 	"k8s.io/apimachinery/pkg/fields"
+	"k8s.io/apimachinery/pkg/labels"
 	"k8s.io/apimachinery/pkg/runtime"
 	"k8s.io/apimachinery/pkg/runtime/schema"
 	"sigs.k8s.io/controller-runtime/pkg/client"
@@ -45,6 +47,27 @@ type SimAPI struct {
 	BeforeWrite func(op string, obj client.Object)
 	// FilterPodsByNode makes List honour a raw spec.nodeName field selector like the real API server.
 	Calls map[string]int
+
+	// ---- informer cache model (opt-in, see EnableCache): reads are served from what the watch
+	// has delivered so far, writes go to the API server; events fire on delivery
+	Lag       func(kind string) time.Duration
+	OnDeliver func(kind string, key client.ObjectKey, obj client.Object)
+	cacheOn   bool
+	cache     map[string]client.Object // kind/ns/name -> delivered version (nil: delivered as absent)
+	known     map[string]bool
+	queue     []delivery
+	lastAt    map[string]time.Time
+	seq       int
+	wake      chan struct{}
+	pumping   bool
+}
+
+type delivery struct {
+	at   time.Time
+	seq  int
+	kind string
+	key  client.ObjectKey
+	obj  client.Object // nil: the object is gone
 }
 
 // NewSimAPI builds the wrapped client.
@@ -73,6 +96,9 @@ func NewSimAPI(run *Run, scheme *runtime.Scheme, statusSubresources []client.Obj
 	})
 	return a
 }
+
+// KindOf is the Go type name of an API object (Pod, PodENI, PodENIList, ...).
+func KindOf(obj runtime.Object) string { return kindOf(obj) }
 
 func kindOf(obj runtime.Object) string {
 	t := reflect.TypeOf(obj)
@@ -105,6 +131,17 @@ func (a *SimAPI) get(ctx context.Context, c client.WithWatch, key client.ObjectK
 		a.Run.Fault("api.get.err")
 		a.Run.S.Log("api", "get %s %s -> injected error", kindOf(obj), key.Name)
 		return injected("get")
+	}
+	if a.cacheOn {
+		if v, ok := a.cached(kindOf(obj), key); ok {
+			if v == nil {
+				a.Run.S.Log("api", "get %s %s -> not in cache", kindOf(obj), key.Name)
+				return apierrors.NewNotFound(schema.GroupResource{Resource: kindOf(obj)}, key.Name)
+			}
+			copyInto(v, obj)
+			a.Run.S.Log("api", "get %s %s -> cached rv=%s", kindOf(obj), key.Name, v.GetResourceVersion())
+			return nil
+		}
 	}
 	err := c.Get(ctx, key, obj)
 	a.Run.S.Log("api", "get %s %s -> %v", kindOf(obj), key.Name, err != nil)
@@ -152,6 +189,9 @@ func (a *SimAPI) list(ctx context.Context, c client.WithWatch, list client.Objec
 			}
 		}
 		items = kept
+	}
+	if a.cacheOn {
+		items = a.mergeCached(list, items, lo, rawField)
 	}
 	// canonical order, then a seeded permutation
 	sort.SliceStable(items, func(i, j int) bool {
@@ -215,20 +255,205 @@ func (a *SimAPI) write(op string, obj client.Object, do func() error) error {
 		a.Run.Fault("api." + op + ".conflict")
 		return conflictErr(obj)
 	case APIErrAfter:
+		a.prefetch(obj)
 		if err := do(); err != nil {
 			return err
 		}
 		a.written(op, obj)
+		a.observe(obj)
 		a.Run.Fault("api." + op + ".err-after")
 		return injected(op)
 	}
+	a.prefetch(obj)
 	if err := do(); err != nil {
 		a.Run.S.Log("api", "%s %s %s -> %v", op, kindOf(obj), obj.GetName(), err)
 		return err
 	}
 	a.Run.S.Log("api", "%s %s %s -> ok", op, kindOf(obj), obj.GetName())
 	a.written(op, obj)
+	a.observe(obj)
 	return nil
+}
+
+// ---------------------------------------------------------------------------------------
+// informer cache model
+
+// EnableCache switches reads to the informer-cache model: Get and List return what the watch
+// has delivered so far; a write becomes visible lag(kind) later (per kind in write order), and
+// OnDeliver fires at that moment (that is when a controller's event handler runs). Objects the
+// cache machinery has never seen a write for are read from the API server (the initial list).
+func (a *SimAPI) EnableCache(lag func(kind string) time.Duration, onDeliver func(kind string, key client.ObjectKey, obj client.Object)) {
+	a.cacheOn, a.Lag, a.OnDeliver = true, lag, onDeliver
+	a.cache, a.known, a.lastAt = map[string]client.Object{}, map[string]bool{}, map[string]time.Time{}
+	a.wake = make(chan struct{}, 1)
+}
+
+// ResetCache is a restart of the process that owns the informers: the next reads list from the
+// API server again, undelivered changes are dropped with the old watch.
+func (a *SimAPI) ResetCache() {
+	if !a.cacheOn {
+		return
+	}
+	a.cache, a.known, a.lastAt = map[string]client.Object{}, map[string]bool{}, map[string]time.Time{}
+	a.queue = nil
+}
+
+func ckey(kind string, key client.ObjectKey) string {
+	return kind + "/" + key.Namespace + "/" + key.Name
+}
+
+func (a *SimAPI) cached(kind string, key client.ObjectKey) (client.Object, bool) {
+	k := ckey(kind, key)
+	if !a.known[k] {
+		return nil, false
+	}
+	return a.cache[k], true
+}
+
+func copyInto(src, dst client.Object) {
+	reflect.ValueOf(dst).Elem().Set(reflect.ValueOf(src.DeepCopyObject()).Elem())
+}
+
+func (a *SimAPI) truthOf(obj client.Object) client.Object {
+	cp := reflect.New(reflect.TypeOf(obj).Elem()).Interface().(client.Object)
+	if err := a.Inner.Get(context.Background(), client.ObjectKeyFromObject(obj), cp); err != nil {
+		return nil
+	}
+	return cp
+}
+
+// prefetch makes the cache hold the version before the first write it gets to see.
+func (a *SimAPI) prefetch(obj client.Object) {
+	if !a.cacheOn {
+		return
+	}
+	k := ckey(kindOf(obj), client.ObjectKeyFromObject(obj))
+	if a.known[k] {
+		return
+	}
+	a.known[k] = true
+	a.cache[k] = a.truthOf(obj)
+}
+
+// observe schedules the delivery of the object's current state to the cache.
+func (a *SimAPI) observe(obj client.Object) {
+	if !a.cacheOn {
+		return
+	}
+	kind, key := kindOf(obj), client.ObjectKeyFromObject(obj)
+	at := time.Now().Add(a.Lag(kind))
+	if at.Before(a.lastAt[kind]) {
+		at = a.lastAt[kind]
+	}
+	a.lastAt[kind] = at
+	a.seq++
+	a.queue = append(a.queue, delivery{at: at, seq: a.seq, kind: kind, key: key, obj: a.truthOf(obj)})
+	sort.SliceStable(a.queue, func(i, j int) bool {
+		if !a.queue[i].at.Equal(a.queue[j].at) {
+			return a.queue[i].at.Before(a.queue[j].at)
+		}
+		return a.queue[i].seq < a.queue[j].seq
+	})
+	if !a.pumping {
+		a.pumping = true
+		a.Run.S.GoNamed("informer", 0, a.pump)
+	} else {
+		select {
+		case a.wake <- struct{}{}:
+		default:
+		}
+	}
+}
+
+// DirectWrite is for the harness's own writes (through Inner): the cache sees them like any other.
+func (a *SimAPI) DirectWrite(obj client.Object, do func() error) error {
+	a.prefetch(obj)
+	err := do()
+	if err == nil {
+		a.observe(obj)
+	}
+	return err
+}
+
+func (a *SimAPI) pump() {
+	for {
+		if len(a.queue) == 0 {
+			simrt.Recv(a.wake)
+			continue
+		}
+		if d := time.Until(a.queue[0].at); d > 0 {
+			t := time.NewTimer(d)
+			simrt.Select(false, simrt.RecvCase(a.wake), simrt.RecvCase(t.C))
+			t.Stop()
+			continue
+		}
+		d := a.queue[0]
+		a.queue = a.queue[1:]
+		a.cache[ckey(d.kind, d.key)] = d.obj
+		if d.obj == nil {
+			a.Run.S.Log("informer", "%s %s gone", d.kind, d.key.Name)
+		} else {
+			a.Run.S.Log("informer", "%s %s rv=%s", d.kind, d.key.Name, d.obj.GetResourceVersion())
+		}
+		if a.OnDeliver != nil {
+			a.OnDeliver(d.kind, d.key, d.obj)
+		}
+		simrt.Yield("informer")
+	}
+}
+
+// mergeCached replaces what a List read from the API server by what the cache holds.
+func (a *SimAPI) mergeCached(list client.ObjectList, items []runtime.Object, lo *client.ListOptions, rawField fields.Selector) []runtime.Object {
+	kind := kindOf(list)
+	if n := len(kind); n > 4 && kind[n-4:] == "List" {
+		kind = kind[:n-4]
+	}
+	keep := func(o client.Object) bool {
+		if lo.Namespace != "" && o.GetNamespace() != lo.Namespace {
+			return false
+		}
+		if lo.LabelSelector != nil && !lo.LabelSelector.Matches(labels.Set(o.GetLabels())) {
+			return false
+		}
+		if lo.FieldSelector != nil && !matchRawField(o, lo.FieldSelector) {
+			return false
+		}
+		if rawField != nil && !matchRawField(o, rawField) {
+			return false
+		}
+		return true
+	}
+	seen := map[string]bool{}
+	out := items[:0]
+	for _, it := range items {
+		o, ok := it.(client.Object)
+		if !ok {
+			out = append(out, it)
+			continue
+		}
+		k := ckey(kind, client.ObjectKeyFromObject(o))
+		seen[k] = true
+		if !a.known[k] {
+			out = append(out, it)
+			continue
+		}
+		if v := a.cache[k]; v != nil && keep(v) {
+			out = append(out, v.DeepCopyObject())
+		}
+	}
+	ks := make([]string, 0, len(a.cache))
+	for k := range a.cache {
+		ks = append(ks, k)
+	}
+	sort.Strings(ks)
+	for _, k := range ks {
+		v := a.cache[k]
+		if v == nil || seen[k] || kindOf(v) != kind || !keep(v) {
+			continue
+		}
+		out = append(out, v.DeepCopyObject())
+	}
+	return out
 }
 
 func (a *SimAPI) create(ctx context.Context, c client.WithWatch, obj client.Object, opts ...client.CreateOption) error {
